@@ -387,6 +387,27 @@ def r10(ctx):
     c09.r10(ctx)
     c05.r2(ctx)
 
+def r11(ctx):
+    """'a request ... of which any object header is rejected is answered with an IIN2 error bit': for a READ deferred during an
+    unsolicited confirm wait the rejection is noted at deferral time (DeferredRead::set) and must survive the merge with the IIN2 of
+    the selection made when the READ is finally answered."""
+    prog = ctx.prog
+    mb = prog.body("outstation::deferred::DeferredInfo::merge")
+    ms = ctx.sym(mb)
+    cs = call_sites(mb, r"DeferredInfo::new$")
+    if len(cs) != 1:
+        raise AnchorError("DeferredInfo::merge: DeferredInfo::new site")
+    e = ms.call_expr(cs[0].term)
+    a = e[2][3]
+    own = ("field", ("param", "self"), "iin2")
+    ok = mentions(a, lambda x: x == own) and mentions_name(a, "iin2") and (mentions(a, lambda x: x[0] == "bin" and x[1] == "BitOr") or mentions_call(a, r"BitOr.*::bitor$|::bitor$"))
+    ctx.check(ok, "deferred-merge:iin2-accumulates", "merge: iin2 = %s" % expr_str(a)[:60], mb.where(cs[0].idx), bad_detail="DeferredInfo::merge builds the record with iin2 = `%s`: the rejection noted when the READ was deferred is lost" % expr_str(a)[:60])
+    for i, nm in enumerate(("hash", "seq", "info")):
+        ctx.check(e[2][i] == ("field", ("param", "self"), nm), "deferred-merge:%s" % nm, "merge keeps self.%s" % nm, mb.where(cs[0].idx))
+    sb = prog.body("outstation::deferred::DeferredRead::set")
+    ws = [ctx.sym(sb).rvalue_expr(st.rv) for b, si, st in sb.assigns() if st.dest.is_local() and sb.local_name(st.dest.local) == "iin2"]
+    ctx.check(any(mentions_constdef(w, r"Iin2::PARAMETER_ERROR$") or mentions_const(w, 4) for w in ws), "deferred-set:notes-rejection", "DeferredRead::set notes PARAMETER_ERROR for a header that cannot be read", sb.where(line=sb.line))
+
 RULES = [
     ("C12.R1", "T8/T11", "sequence/UNS/FIR/FIN/CON provenance of every response header", r1),
     ("C12.R2", "T4", "no-response function codes and CONFIRM produce no response; all others do", r2),
@@ -398,4 +419,5 @@ RULES = [
     ("C12.R8", "T8-namesake", "session parameters (transmit buffer sizes, limits) are plumbed from the like-named configuration field", r_plumb),
     ("C12.R9", "T3", "item writers that can overflow the transmit buffer mid-object are transactional", r9),
     ("C12.R10", "T3/T2", "fragments cut by a full buffer stay parseable (C09.R10); a repeat is recognised by sequence AND digest (C05.R2)", r10),
+    ("C12.R11", "T7", "the IIN2 recorded when a READ is deferred is OR-ed with the IIN2 of its later selection", r11),
 ]
